@@ -1118,12 +1118,18 @@ func (x *Exec) resolveHeapName(ce *CEnv, s string) string {
 	if strings.HasPrefix(s, "HS(") && strings.HasSuffix(s, ")") {
 		t := x.prog.resolveType(x.pkgOf(ce), s[3:len(s)-1])
 		if t == nil {
+			t = x.typeParamByName(s[3 : len(s)-1])
+		}
+		if t == nil {
 			cfail("assigns: cannot resolve type in %s", s)
 		}
 		return x.heapKeySlice(t)
 	}
 	if strings.HasPrefix(s, "H(") && strings.HasSuffix(s, ")") {
 		t := x.prog.resolveType(x.pkgOf(ce), s[2:len(s)-1])
+		if t == nil {
+			t = x.typeParamByName(s[2 : len(s)-1])
+		}
 		if t == nil {
 			cfail("assigns: cannot resolve type in %s", s)
 		}
@@ -1133,6 +1139,41 @@ func (x *Exec) resolveHeapName(ce *CEnv, s string) string {
 		cfail("assigns: unknown heap %s", s)
 	}
 	return s
+}
+
+// typeParamByName: a type parameter of the (generic) function under contract, or
+// of the function that encloses it when it is a function literal.
+func (x *Exec) typeParamByName(name string) types.Type {
+	for f := x.root; f != nil; f = f.Parent() {
+		g := f
+		if g.Origin() != nil {
+			g = g.Origin()
+		}
+		tps := g.TypeParams()
+		for i := 0; tps != nil && i < tps.Len(); i++ {
+			if tps.At(i).Obj().Name() == name {
+				return tps.At(i)
+			}
+		}
+		if sig := g.Signature; sig != nil && sig.Recv() != nil {
+			if nt, ok := derefType(sig.Recv().Type()).(*types.Named); ok {
+				rtp := nt.TypeArgs()
+				for i := 0; rtp != nil && i < rtp.Len(); i++ {
+					if tp, ok := rtp.At(i).(*types.TypeParam); ok && tp.Obj().Name() == name {
+						return tp
+					}
+				}
+			}
+		}
+	}
+	return nil
+}
+
+func derefType(t types.Type) types.Type {
+	if p, ok := t.(*types.Pointer); ok {
+		return p.Elem()
+	}
+	return t
 }
 
 // applyFuncValue: the uninterpreted application of a (pure) function value.
